@@ -525,11 +525,8 @@ inline void runMsgPack(Ctx& C) {
     }
   // big arrays (linear to build); big maps are in mode msgpack-big
   {
-    std::vector<size_t> big = {255, 256, 65534, 65535};
-    if (T) {
-      big.push_back(65536);
-      big.push_back(65537);
-    }
+    std::vector<size_t> big = {255, 256, 65534, 65535, 65536};  // both sides of array16 / array32 in every tier
+    if (T) big.push_back(65537);
     for (size_t n : big) {
       MpOpts o;
       o.light = true;
@@ -572,7 +569,7 @@ inline void runMsgPack(Ctx& C) {
 // big maps (flavour "fast": key lookup makes construction quadratic)
 inline void runMsgPackBig(Ctx& C) {
   const bool T = C.thorough();
-  std::vector<size_t> sizes = {65535};
+  std::vector<size_t> sizes = {65535, 65536};  // both sides of the map16 / map32 boundary in every tier
   if (T) sizes = {65534, 65535, 65536, 65537};
   auto viaDeser = [&](size_t n, int style) {
     if (C.expired()) return;
